@@ -114,9 +114,25 @@ Definition recount (w : list N) : bits := {| words := w; cached := Z.of_nat (len
 (* the members in ascending order, as Iter / Range / All produce them *)
 Definition enumerate (set : list N) : list N :=
   drain (64 * length set + 1) set {| wi := O; bj := 0; rd := false |}.
-(* Range/All with a callback that returns false at its k-th call (k = 0: never stops) *)
-Definition enumerate_stop (set : list N) (k : nat) : list N :=
-  match k with O => mlist 0 set | _ => firstn k (mlist 0 set) end.
+(* Bitmap.Range (bits.go:161-171) / Bits.All (iter.go:9-21): the double loop "for i < len(set) { for j < 64 { if set[i]&(1<<j) != 0
+   { if !fn(uint(i<<6 + j)) { return } } } }" with a callback that returns false at its k-th call (k = 0: never).
+   [calls] = callback invocations so far; the stop flag is carried out of both loops. *)
+Fixpoint range_word (js : list N) (w base : N) (k calls : nat) : list N * nat * bool :=
+  match js with
+  | [] => ([], calls, false)
+  | j :: r =>
+      if negb (N.land w (N.shiftl 1 j) =? 0) then
+        if (0 <? k)%nat && (k <=? S calls)%nat then ([base + j], S calls, true)
+        else let '(l, c, s) := range_word r w base k (S calls) in ((base + j) :: l, c, s)
+      else range_word r w base k calls
+  end.
+Fixpoint range_loop (set : list N) (i : N) (k calls : nat) : list N :=
+  match set with
+  | [] => []
+  | w :: t => let '(l, c, s) := range_word bits64 w (N.shiftl i 6) k calls in
+              if s then l else l ++ range_loop t (i + 1) k c
+  end.
+Definition enumerate_stop (set : list N) (k : nat) : list N := range_loop set 0 k 0.
 
 (* kinds *)
 Inductive kind := KBits | KBitmap | KDsz.
